@@ -1212,16 +1212,34 @@ func ruleResolveErrorsChecked(c *Ctx, rule string) {
 			}
 			if errVal == nil {
 				// `_ =` is a visible decision of the author; the frozen exceptions are listed with their reason
-				top := fn
-				for top.Parent() != nil {
-					top = top.Parent()
+				why, ok := "", false
+				// the anchor registrar: its only error is "duplicate anchor", which the pinned tree ignores on purpose
+				var callees []*ssa.Function
+				if sc := call.Call.StaticCallee(); sc != nil {
+					callees = append(callees, sc)
+				} else {
+					for _, src := range append(traceSources(call.Call.Value), call.Call.Value) {
+						switch f := src.(type) {
+						case *ssa.Function:
+							callees = append(callees, f)
+						case *ssa.MakeClosure:
+							callees = append(callees, f.Fn.(*ssa.Function))
+						}
+					}
 				}
-				var ps []string
-				sig := call.Call.Signature()
-				for k := 0; k < sig.Params().Len(); k++ {
-					ps = append(ps, types.TypeString(sig.Params().At(k).Type(), func(*types.Package) string { return "" }))
+				for _, callee := range callees {
+					if !c.P.InPkg(callee) {
+						continue
+					}
+					for _, cf := range core.WithAnon(callee) {
+						core.EachInstr(cf, func(j ssa.Instruction) {
+							if mu, isMU := j.(*ssa.MapUpdate); isMU && c.mentionsField(mu.Map, "resolvedInfo.anchors", 4) {
+								why, ok = resolveErrorsIgnored["anchor-registrar"], true
+							}
+						})
+					}
 				}
-				if why, ok := resolveErrorsIgnored[core.FuncName(top)+":func("+strings.Join(ps, ",")+") error"]; ok {
+				if ok {
 					c.R.OKTable(rule, construct, c.pos(call), "error deliberately ignored: "+why)
 					return
 				}
@@ -1236,5 +1254,5 @@ func ruleResolveErrorsChecked(c *Ctx, rule string) {
 
 // errors of the resolution code that are ignored on purpose on the pinned tree (function:callee -> reason)
 var resolveErrorsIgnored = map[string]string{
-	"resolveURIs:func(*Schema,*resolvedInfo,string,bool) error": "setAnchor reports a second declaration of an anchor name in one resource; the resolver keeps the first declaration (children are walked in sorted order) and goes on - no reference is left unresolved by this, and the JSON Schema specification leaves duplicate anchors undefined",
+	"anchor-registrar": "the function that enters an anchor into a resource's table (setAnchor) reports a second declaration of an anchor name in one resource; the resolver keeps the first declaration (children are walked in sorted order) and goes on - no reference is left unresolved by this, and the JSON Schema specification leaves duplicate anchors undefined",
 }
